@@ -706,6 +706,11 @@ def _check_wiring(run: Run, m: Module, qual: str, reader: str, idx: int, sinks, 
             found += 1
             wv = t.id
             wanted = set(sinks(wv))
+            # the tool's own list must exist under the name this rule knows it by; otherwise the rule cannot judge (fail closed)
+            heads = {w0.split(".")[0].split("[")[0] for w0 in wanted}
+            fn_names = {x.id for x in walk_no_nested(fi.node) if isinstance(x, ast.Name)}
+            if not (heads & fn_names):
+                raise AnalysisError(f"{qual}: none of the receipt lists {sorted(heads)} exists in this function (renamed?)")
             # the receipts may first go into a local list that is merged into the tool's list later (a stage that collects its
             # own corrections): any list that flows into `corrections` / `repairs_list` is as good as the list itself
             flows: set[str] = set()
